@@ -32,6 +32,14 @@ pub trait WriteXml {
     fn write_xml<W: Write>(&self, writer: &mut Writer<W>) -> Result<(), WriteError>;
 }
 
+/// The `Char` production of XML 1.0 (fifth edition), section 2.2.
+const fn is_xml_char(c: char) -> bool {
+    matches!(
+        c,
+        '\u{9}' | '\u{A}' | '\u{D}' | '\u{20}'..='\u{D7FF}' | '\u{E000}'..='\u{FFFD}' | '\u{10000}'..='\u{10FFFF}'
+    )
+}
+
 #[async_trait]
 pub trait ClientMsg: WriteXml + Debug {
     #[tracing::instrument(skip(self), level = "debug")]
@@ -47,7 +55,19 @@ pub trait ClientMsg: WriteXml + Debug {
             ));
         }
         buf.extend_from_slice(MARKER);
-        Ok(String::from_utf8(buf)?)
+        let message = String::from_utf8(buf)?;
+        // XML 1.0 cannot carry these characters at all (not even as character references), so a
+        // message containing one would not be well-formed: refuse to send it.
+        if let Some(c) = message.chars().find(|&c| !is_xml_char(c)) {
+            return Err(WriteError::Other(
+                format!(
+                    "message contains U+{:04X}, which is not an XML 1.0 character",
+                    u32::from(c)
+                )
+                .into(),
+            ));
+        }
+        Ok(message)
     }
 
     #[tracing::instrument(skip(self, sender), level = "trace")]
